@@ -635,6 +635,10 @@ func VerifyFunction(prog *Program, cs *Contracts, fn *ssa.Function, fc *FuncCont
 		for ci, c := range fc.Ensures {
 			g, err := penv.Bool(c.E)
 			if err != nil {
+				if x.staleClause(err) {
+					x.staleObligation(fmt.Sprintf("ensures.c%d", ci+1), r.pos, x.lab(c.Labels), c.Text, r.st.PC, err)
+					continue
+				}
 				res.Err = engineErr("%s ensures %q: %v", short, c.Text, err)
 				return
 			}
@@ -651,6 +655,20 @@ func VerifyFunction(prog *Program, cs *Contracts, fn *ssa.Function, fc *FuncCont
 	}
 	if len(fr.rets) == 0 {
 		u.Trust(short + ": no reachable return (function never returns normally)")
+	}
+	// every "loop N …" clause must have met its loop
+	if len(fc.Loops) > 0 {
+		have := map[int]bool{}
+		for _, li := range findLoops(fn) {
+			have[li.ordinal] = true
+		}
+		for n, cl := range fc.Loops {
+			if !have[n] {
+				for ci, c := range cl {
+					u.AddObligation(short, fmt.Sprintf("inv-entry.L%d.c%d", n, ci+1), fn.Pos(), x.lab(c.Labels), c.Text+fmt.Sprintf("   [loop %d no longer exists]", n), True, False)
+				}
+			}
+		}
 	}
 	// every "call X#k assert" must have met its call (otherwise the assertion silently vanished)
 	for tag, cl := range fc.CallAssert {
